@@ -321,8 +321,21 @@ func RunDispHistories(c Ctx, rep *report.Report, rng *chain.Rng, n, steps int, n
 				var outs []banktypes.Output
 				for i := 0; i < nOut; i++ {
 					rcp := rcpPool()
+					if rng.Intn(10) == 0 {
+						rcp = strings.ToUpper(rcp) // bech32's other spelling of the same address
+						rep.Count("create.output-address-in-upper-case")
+					}
 					if i > 0 && rng.Intn(4) == 0 {
 						rcp = s.Outs[rng.Intn(len(s.Outs))].Rcp // duplicate recipient
+						switch rng.Intn(4) {
+						case 0: // ... once more, in the other spelling
+							if rcp == strings.ToUpper(rcp) {
+								rcp = strings.ToLower(rcp)
+							} else {
+								rcp = strings.ToUpper(rcp)
+							}
+							rep.Count("create.duplicate-recipient-in-other-spelling")
+						}
 					}
 					cs := randCoins(rng, rng.Intn(30) == 0)
 					s.Outs = append(s.Outs, dOut{rcp, cs})
@@ -439,6 +452,13 @@ func (h dHistory) ids() dIDs {
 func (ids dIDs) acctOf(a string) int64 {
 	if v, ok := ids.acct[a]; ok {
 		return v
+	}
+	// the all-upper-case spelling of a tracked address: another record key (it sorts before the lower-case one), the same
+	// account (Model/Dispensation.v: negative ids, acct_of)
+	if a == strings.ToUpper(a) {
+		if v, ok := ids.acct[strings.ToLower(a)]; ok {
+			return v - 100000
+		}
 	}
 	return 9999 // an account outside the tracked set
 }
@@ -675,25 +695,26 @@ func MonDispensation(rep *report.Report, h dHistory) {
 				f, okF := postF[k]
 				switch {
 				case okC && c.Coins.IsEqual(r.Coins) && c.Done == s.Pre.Height:
-					if recv[r.Rcp] == nil {
-						recv[r.Rcp] = map[string]*big.Int{}
+					acct := strings.ToLower(r.Rcp) // the account behind the address as written
+					if recv[acct] == nil {
+						recv[acct] = map[string]*big.Int{}
 					}
 					for _, d := range w.Denoms {
-						if recv[r.Rcp][d] == nil {
-							recv[r.Rcp][d] = new(big.Int)
+						if recv[acct][d] == nil {
+							recv[acct][d] = new(big.Int)
 						}
-						recv[r.Rcp][d].Add(recv[r.Rcp][d], coinsOf(r.Coins, d))
+						recv[acct][d].Add(recv[acct][d], coinsOf(r.Coins, d))
 						add(paid, k+"/"+d, coinsOf(r.Coins, d))
 					}
 					if r.Type == 2 || r.Type == 3 {
 						for _, cl := range s.Post.Claims {
-							if cl[0] == r.Rcp && cl[1] == fmt.Sprint(r.Type) {
+							if cl[0] == acct && cl[1] == fmt.Sprint(r.Type) {
 								fail("C11/claim-not-deleted", "claim of "+r.Rcp+" survived the payment of its record")
 							}
 						}
 					}
 				case okF && f.Coins.IsEqual(r.Coins) && f.Done == s.Pre.Height:
-					if !blocked[r.Rcp] {
+					if !blocked[strings.ToLower(r.Rcp)] {
 						fail("C11/failed-without-cause", "record "+k+" was marked failed though its recipient can receive")
 					}
 				default:
